@@ -30,11 +30,25 @@ def namesOf (s : Str) : List Str := names (s.length + 1) s
 /-- the entries an update's key reaches -/
 def hits (pom : Pom) (u : Upd) : List Dep := pom.deps.filter fun d => d.key = u.key
 
+/-- where a property patch for dependency `d` can be written: the project's `<properties>` or the
+`<properties>` of the dependency's own profile -/
+def writableProp (pom : Pom) (d : Dep) (n : Str) : Bool :=
+  let po := if hasPrefix sProfile d.origin then cutSuffix d.origin ('@' :: sManagement) else []
+  pom.props.any fun p => p.name = n && (p.origin = [] || p.origin = po)
+
+/-- class predicate of C13/pom-property-other-profile: an updated dependency's version uses a property
+that some local `<properties>` defines (so fix f5d17448's by-name test passes) but none that a patch
+for this dependency is written to -/
+def otherProfileProp (pom : Pom) (us : List Upd) : Bool :=
+  us.any fun u => (hits pom u).any fun d =>
+    (namesOf d.ver).any fun n => pom.props.any (fun p => p.name = n) && !writableProp pom d n
+
 /-- known classes, most specific first; `none` = the case is inside the requirement-level statement.
 (The classes key-whitespace, undefined-property and props-repeated-name were repaired by fixes 5743d35a,
 f5d17448 and d4dd80ce.) -/
 def feature (pom : Pom) (us : List Upd) : Option String :=
   if us.any (fun u => (hits pom u).length ≥ 2) then some "C13/pom-origin-ignored"
+  else if otherProfileProp pom us then some "C13/pom-property-other-profile"
   else if us.any (fun u => (hits pom u).any fun d =>
       (namesOf d.ver).any fun n => pom.deps.any fun d' => d' ≠ d && (namesOf d'.ver).contains n) then
     some "C13/pom-shared-property"
